@@ -308,6 +308,83 @@ def trr_reader(ctx):
             ctx.bad("R-13.3", c, "read_remaining_trr (which has no size guards) is reachable while mdrun may still be writing")
 
 
+def zero_block_size(ctx, f):
+    """No `index % D` / `index // D` with D still holding its zero initialiser in the first iteration."""
+    rid = "R-13.6"
+    fl = flow_of(f)
+    cfg = fl.cfg
+    loop, idx, line = _line_loop(f)
+    if loop is None or idx is None:
+        return
+    head = cfg.node_of(loop)
+    mods = [n for n in walk_local(loop) if isinstance(n, ast.BinOp) and isinstance(n.op, (ast.Mod, ast.FloorDiv, ast.Div)) and isinstance(n.right, ast.Name)]
+    if not mods:
+        return
+    divisors = {m.right.id for m in mods}
+    for D in sorted(divisors):
+        zero_init = [d for d in fl.defs if d.path == D and d.kind == "assign" and isinstance(d.value, ast.Constant) and d.value.value == 0 and not _inside(type("X", (), {"ast": d.stmt})(), loop, cfg)]
+        uses = [cfg.node_of(m) for m in mods if m.right.id == D]
+        if not zero_init:
+            ctx.ok(rid, mods[0], f"{f.name}: divisor {D!r} is never initialised to 0")
+            continue
+
+        def ev(e):
+            """truth of e in the first iteration (index == 0); None = unknown"""
+            if isinstance(e, ast.BoolOp):
+                vals = [ev(v) for v in e.values]
+                if isinstance(e.op, ast.And):
+                    if any(v is False for v in vals):
+                        return False
+                    return True if all(v is True for v in vals) else None
+                if any(v is True for v in vals):
+                    return True
+                return False if all(v is False for v in vals) else None
+            if isinstance(e, ast.UnaryOp) and isinstance(e.op, ast.Not):
+                v = ev(e.operand)
+                return None if v is None else not v
+            if isinstance(e, ast.Compare) and len(e.ops) == 1 and isinstance(e.left, ast.Name) and e.left.id == idx and isinstance(e.comparators[0], ast.Constant) and isinstance(e.comparators[0].value, int):
+                c = e.comparators[0].value
+                return {ast.Eq: 0 == c, ast.NotEq: 0 != c, ast.Gt: 0 > c, ast.GtE: 0 >= c, ast.Lt: 0 < c, ast.LtE: 0 <= c}.get(type(e.ops[0]))
+            return None
+
+        start = [s for s, lab in cfg.succ[head.id] if lab == "T"]
+        seen = set()
+        todo = [(start[0], False)] if start else []
+        hit = None
+        while todo:
+            nid, defined = todo.pop()
+            if (nid, defined) in seen or nid == head.id:
+                continue
+            seen.add((nid, defined))
+            n = cfg.nodes[nid]
+            if any(u.id == nid for u in uses) and not defined and n.kind in ("test", "stmt"):
+                hit = n
+                break
+            for d in fl.gen.get(nid, []):
+                if d.path == D and not (isinstance(d.value, ast.Constant) and d.value.value == 0):
+                    defined = True
+            if n.kind == "test":
+                v = ev(n.ast)
+                for s2, lab in cfg.succ[nid]:
+                    if lab == "exc":
+                        continue
+                    if v is None or lab == ("T" if v else "F"):
+                        todo.append((s2, defined))
+                continue
+            if n.kind == "stmt" and isinstance(n.ast, (ast.Return, ast.Raise)):
+                continue
+            for s2, lab in cfg.succ[nid]:
+                if lab != "exc":
+                    todo.append((s2, defined))
+        if hit is not None:
+            ctx.bad(rid, hit.ast if isinstance(hit.ast, ast.AST) else mods[0],
+                    f"{f.name}: in the first loop iteration `{idx} % {D}` can be evaluated while {D!r} still holds its initial 0 (the branch that sets it is skipped, e.g. when the first line has no fields yet): "
+                    "the reader raises ZeroDivisionError on a partially written frame",
+                    construct=f"{idx} % {D} with {D} = 0 reachable in the first iteration")
+        else:
+            ctx.ok(rid, mods[0], f"{f.name}: {D!r} is set (or the reader returns) before `{idx} % {D}` on every first-iteration path")
+
+
 def _fmt_size(e, consts):
     """Byte size of a struct format expression; variable parts are replaced by
     their largest repository-known value."""
@@ -403,6 +480,7 @@ def trr_head_size(ctx):
 
 
 def run(ctx):
+    ctx.rule("R-13.6", "line-index arithmetic never divides by a block size that still holds its zero initialiser (no exception on a partial first line)", floor=1)
     ctx.rule("R-13.5", "the byte count that gates the first TRR header read covers the largest header (struct formats of read_trr_header, double precision)", floor=1)
     ctx.rule("R-13.1", "every parse of current-line text is dominated by a completeness guard (newline / sentinel) whose failing edge returns without committing", floor=6)
     ctx.rule("R-13.2", "the read position is committed only under the frame-complete condition (or the documented lone-newline resync)", floor=3)
@@ -415,14 +493,15 @@ def run(ctx):
     for f in rs:
         ctx.attempt(text_reader, ctx, f)
         ctx.attempt(handed_out_buffers, ctx, "R-13.4", f, "returned frame owns its data")
+        ctx.attempt(zero_block_size, ctx, f)
     ctx.attempt(trr_reader, ctx)
     ctx.attempt(trr_head_size, ctx)
 
 
 VARIANTS = [
     B("c13-xyz-atoms-fieldcount-only", ENGPARTS, 'if len(spl) != 4 or line[-1] != "\\n":', "if len(spl) != 4:", "R-13.1", control=True, why="pre-fix D3"),
-    B("c13-xyz-natoms-unguarded", ENGPARTS, '            if line[-1] != "\\n":\n                return trajectory\n            N_atoms = int(spl[0])\n            block_size = N_atoms + 2', "            N_atoms = int(spl[0])\n            block_size = N_atoms + 2", "R-13.1"),
-    B("c13-lammps-natoms-unguarded", ENGPARTS, 'if not spl or line[-1] != "\\n":', "if not spl:", "R-13.1"),
+    B("c13-xyz-natoms-unguarded", ENGPARTS, '            if not spl or line[-1] != "\\n":\n                return trajectory\n            N_atoms = int(spl[0])', '            if not spl:\n                return trajectory\n            N_atoms = int(spl[0])', "R-13.1"),
+    B("c13-lammps-natoms-unguarded", ENGPARTS, '            if not spl or line[-1] != "\\n":\n                return trajectory, box', "            if not spl:\n                return trajectory, box", "R-13.1"),
     B("c13-lammps-box-unguarded", ENGPARTS, 'if n_box_cols not in [2, 3] or line[-1] != "\\n":', "if n_box_cols not in [2, 3]:", "R-13.1"),
     B("c13-lammps-sentinel-dropped", ENGPARTS, "if len(spl) != 9 or spl[0] != spl[-1]:", "if len(spl) != 9:", "R-13.1", control=True),
     B("c13-lammps-guard-continues", ENGPARTS, "            if len(spl) != 9 or spl[0] != spl[-1]:\n                return trajectory, box", "            if len(spl) != 9 or spl[0] != spl[-1]:\n                continue", "R-13.1"),
@@ -441,9 +520,10 @@ VARIANTS = [
     B("c13-trr-head-size-single-precision", GROMACS, "TRR_HEAD_SIZE = 1000", 'TRR_HEAD_SIZE = struct.calcsize(f">3i{len(_TRR_VERSION)}s13i2f")', "R-13.5", control=True, why="seeded C13_b"),
     B("c13-trr-head-size-small", GROMACS, "TRR_HEAD_SIZE = 1000", "TRR_HEAD_SIZE = 64", "R-13.5"),
     K("c13-keep-trr-head-size-exact", GROMACS, "TRR_HEAD_SIZE = 1000", 'TRR_HEAD_SIZE = struct.calcsize(f">3i{len(_TRR_VERSION)}s13i2d")'),
+    B("c13-xyz-blank-first-line", ENGPARTS, '        if i == 0:\n            # the line is not fully written, might read wrong nr. of atoms\n            # (or only the blanks in front of a right-aligned number)\n            if not spl or line[-1] != "\\n":\n                return trajectory', '        if i == 0 and spl:\n            # the line is not fully written, might read wrong nr. of atoms\n            if line[-1] != "\\n":\n                return trajectory', "R-13.6", control=True, why="pre-fix D13"),
     K("c13-keep-xyz-endswith", ENGPARTS, 'if len(spl) != 4 or line[-1] != "\\n":', 'if len(spl) != 4 or not line.endswith("\\n"):'),
     K("c13-keep-lammps-sentinel-swapped", ENGPARTS, "spl[0] != spl[-1]", "spl[-1] != spl[0]"),
     K("c13-keep-trr-sum-commuted", GROMACS, "if size >= self.bytes_read + header_size:", "if size >= header_size + self.bytes_read:"),
     K("c13-keep-lammps-split-guard", ENGPARTS, '            if not spl or line[-1] != "\\n":\n                return trajectory, box\n', '            if not spl:\n                return trajectory, box\n            if line[-1] != "\\n":\n                return trajectory, box\n'),
-    K("c13-keep-xyz-eq-form", ENGPARTS, '            if line[-1] != "\\n":\n                return trajectory\n            N_atoms = int(spl[0])', '            if line[-1] == "\\n":\n                N_atoms = int(spl[0])\n            else:\n                return trajectory'),
+    K("c13-keep-xyz-eq-form", ENGPARTS, '            if not spl or line[-1] != "\\n":\n                return trajectory\n            N_atoms = int(spl[0])', '            if spl and line[-1] == "\\n":\n                N_atoms = int(spl[0])\n            else:\n                return trajectory'),
 ]
